@@ -110,12 +110,11 @@ pub open spec fn mode_of(m: Seq<char>) -> AuthorizationMode {
     if lower(m) == "audit"@ { AuthorizationMode::Audit } else if lower(m) == "enforce"@ { AuthorizationMode::Enforce } else { AuthorizationMode::Disabled }
 }
 pub struct DocLists { pub privileges: Seq<Privilege>, pub identities: Seq<Identity>, pub roles: Seq<Role>, pub assignments: Seq<RoleAssignment> }
-// "If any of the four sections is missing the rule lists are empty."
+// a missing section is an empty section
+pub open spec fn opt_seq<T>(o: Option<Vec<T>>) -> Seq<T> { match o { Some(v) => v@, None => Seq::<T>::empty() } }
 pub open spec fn doc_lists(d: AuthorizationItem) -> DocLists {
     match d.rules {
-        Some(r) => if r.privileges is Some && r.identities is Some && r.roles is Some && r.roleAssignments is Some {
-                DocLists { privileges: r.privileges->0@, identities: r.identities->0@, roles: r.roles->0@, assignments: r.roleAssignments->0@ }
-            } else { DocLists { privileges: seq![], identities: seq![], roles: seq![], assignments: seq![] } },
+        Some(r) => DocLists { privileges: opt_seq(r.privileges), identities: opt_seq(r.identities), roles: opt_seq(r.roles), assignments: opt_seq(r.roleAssignments) },
         None => DocLists { privileges: seq![], identities: seq![], roles: seq![], assignments: seq![] },
     }
 }
